@@ -373,7 +373,7 @@ def _has_vars(e):
 class PathState:
     def __init__(self, decisions=()):
         self.decisions = list(decisions); self.pos = 0
-        self.pc = []; self.excl = {}; self.subst = {}; self.nvars = 0; self.derived = {}; self.nonempty = set(); self.pattern_of = {}; self.domain = {}
+        self.pc = []; self.excl = {}; self.subst = {}; self.nvars = 0; self.derived = {}; self.nonempty = set(); self.pattern_of = {}; self.domain = {}; self.subst_log = []
         self.pending = []   # alternative decision prefixes discovered
         self.log = []
         self.inputs = {}    # name -> symbolic value (for concretisation)
@@ -461,7 +461,12 @@ class PathState:
             STATS['bad_model'] = STATS.get('bad_model', 0) + 1
             raise Undecided(f'solver ({r[2]}) returned a model that does not satisfy the constraints')
         return r[1]
+    def resolve_expr(self, e):
+        """apply every variable refinement made so far to a z3 expression built earlier on this path"""
+        for pair in self.subst_log: e = z3.substitute(e, pair)
+        return e
     def prove(self, cond):
+        if isinstance(cond, SBool): cond = SBool(self.resolve_expr(cond.z))
         r = self._prove(cond)
         return r
     def _prove(self, cond):
@@ -483,6 +488,7 @@ class PathState:
         """v := atoms ; rewrite pc so that only leaf vars occur"""
         self.subst[v.name] = tuple(atoms)
         rep = SStr(atoms).z()
+        self.subst_log.append((v.z, rep))
         if v.name in self.domain:
             ws = self.dom(v.name); del self.domain[v.name]
             if len(atoms) == 1 and isinstance(atoms[0], Var) and atoms[0].name in self.domain:
